@@ -1016,10 +1016,16 @@ var annPool = []KV{
 var freshPool = []KV{
 	{"b", "2"}, {"owner", "me"}, {"org.example.other", "x"}, {"io.cncf.notar", "just short of the prefix"},
 	{"Io.cncf.notary.x", "case differs"}, {"xio.cncf.notary", "not a prefix"}, {"zz", ""}, {"é", "accent"}, {"B", "upper"}, {"a.c", "3"},
+	// near misses of the reserved prefix, on the permitted side
+	{"IO.CNCF.NOTARY.x", "upper case"}, {" io.cncf.notary.x", "leading space"}, {"io.cncf.notar.y", "a letter short, then a dot"},
+	{"io.cncf_notary.x", "underscore"}, {"io.cncf.notarY", "last letter upper"}, {"org.io.cncf.notary", "prefix inside"},
 }
 var reservedPool = []KV{
 	{"io.cncf.notary.x", "1"}, {"io.cncf.notary", "exactly the prefix"}, {"io.cncf.notaryfoo", "no dot needed"},
 	{"io.cncf.notary.x509chain.thumbprint#S256", "[]"}, {"io.cncf.notary.verificationPlugin", "p"},
+	// the prefix is a prefix of letters, not of labels: whatever follows it
+	{"io.cncf.notary#S256", "hash"}, {"io.cncf.notary-internal", "dash"}, {"io.cncf.notaryproject.verified", "longer label"},
+	{"io.cncf.notary ", "trailing space"}, {"io.cncf.notary/x", "slash"}, {"io.cncf.notary..", "two dots"}, {"io.cncf.notaryé", "non-ASCII next"},
 }
 var specialTimes = []int64{0, 1, 59, 86399, 86400, 68169600 /* 1972-02-29 */, 951782400, 951868799, 951868800, 978307199, 978307200,
 	1709164800 /* 2024-02-29 */, 1727308800, 2147483647, 2147483648, 4107542399, 4107542400, 32503680000 /* 3000-01-01 */, 253402300799}
